@@ -9,9 +9,7 @@ import (
 	"fmt"
 	"log"
 	"os"
-	"runtime"
 	"strings"
-	"time"
 
 	"github.com/absfs/absfs"
 )
@@ -29,64 +27,14 @@ func New(fs absfs.SymlinkFileSystem, options ExportOptions) (*AbsfsNFS, error) {
 	}
 
 	// Set default values if not specified
-	if options.TransferSize <= 0 {
-		options.TransferSize = 65536 // Default: 64KB
-	}
-
-	// Set attribute cache defaults
-	if options.AttrCacheTimeout <= 0 {
-		options.AttrCacheTimeout = 5 * time.Second
-	}
-
-	if options.AttrCacheSize <= 0 {
-		options.AttrCacheSize = 10000
-	}
-
-	// Set negative cache defaults
-	if options.NegativeCacheTimeout <= 0 {
-		options.NegativeCacheTimeout = 5 * time.Second
-	}
-
-	// Set directory cache defaults
-	if options.DirCacheTimeout <= 0 {
-		options.DirCacheTimeout = 10 * time.Second
-	}
-
-	if options.DirCacheMaxEntries <= 0 {
-		options.DirCacheMaxEntries = 1000
-	}
-
-	if options.DirCacheMaxDirSize <= 0 {
-		options.DirCacheMaxDirSize = 10000
-	}
-
-	// Set worker pool defaults
-	if options.MaxWorkers <= 0 {
-		options.MaxWorkers = runtime.NumCPU() * 4 // Default: number of logical CPUs * 4
-	}
-
-	// Connection management defaults
-	if options.MaxConnections <= 0 {
-		options.MaxConnections = 100 // Default: 100 concurrent connections
-	}
-
-	if options.IdleTimeout <= 0 {
-		options.IdleTimeout = 5 * time.Minute // Default: 5 minutes
-	}
+	tuning := tuningFromExportOptions(&options)
+	tuning.applyDefaults()
 
 	// Set TCP socket options defaults if they haven't been explicitly configured
 	// We're checking if the options struct was created with fields vs. default values
 	if !options.hasExplicitTCPSettings {
-		options.TCPKeepAlive = true // Default: enabled
-		options.TCPNoDelay = true   // Default: enabled
-	}
-
-	if options.SendBufferSize <= 0 {
-		options.SendBufferSize = 262144 // Default: 256KB
-	}
-
-	if options.ReceiveBufferSize <= 0 {
-		options.ReceiveBufferSize = 262144 // Default: 256KB
+		tuning.TCPKeepAlive = true // Default: enabled
+		tuning.TCPNoDelay = true   // Default: enabled
 	}
 
 	// Provide default rate limit config if none specified.
@@ -95,50 +43,6 @@ func New(fs absfs.SymlinkFileSystem, options ExportOptions) (*AbsfsNFS, error) {
 	if options.RateLimitConfig == nil {
 		config := DefaultRateLimiterConfig()
 		options.RateLimitConfig = &config
-	}
-
-	// Set timeout defaults if not specified
-	if options.Timeouts == nil {
-		options.Timeouts = &TimeoutConfig{
-			ReadTimeout:    30 * time.Second,
-			WriteTimeout:   60 * time.Second,
-			LookupTimeout:  10 * time.Second,
-			ReaddirTimeout: 30 * time.Second,
-			CreateTimeout:  15 * time.Second,
-			RemoveTimeout:  15 * time.Second,
-			RenameTimeout:  20 * time.Second,
-			HandleTimeout:  5 * time.Second,
-			DefaultTimeout: 30 * time.Second,
-		}
-	} else {
-		// Fill in any zero values with defaults
-		if options.Timeouts.ReadTimeout <= 0 {
-			options.Timeouts.ReadTimeout = 30 * time.Second
-		}
-		if options.Timeouts.WriteTimeout <= 0 {
-			options.Timeouts.WriteTimeout = 60 * time.Second
-		}
-		if options.Timeouts.LookupTimeout <= 0 {
-			options.Timeouts.LookupTimeout = 10 * time.Second
-		}
-		if options.Timeouts.ReaddirTimeout <= 0 {
-			options.Timeouts.ReaddirTimeout = 30 * time.Second
-		}
-		if options.Timeouts.CreateTimeout <= 0 {
-			options.Timeouts.CreateTimeout = 15 * time.Second
-		}
-		if options.Timeouts.RemoveTimeout <= 0 {
-			options.Timeouts.RemoveTimeout = 15 * time.Second
-		}
-		if options.Timeouts.RenameTimeout <= 0 {
-			options.Timeouts.RenameTimeout = 20 * time.Second
-		}
-		if options.Timeouts.HandleTimeout <= 0 {
-			options.Timeouts.HandleTimeout = 5 * time.Second
-		}
-		if options.Timeouts.DefaultTimeout <= 0 {
-			options.Timeouts.DefaultTimeout = 30 * time.Second
-		}
 	}
 
 	// Create server object with configured caches
@@ -165,22 +69,22 @@ func New(fs absfs.SymlinkFileSystem, options ExportOptions) (*AbsfsNFS, error) {
 		},
 		logger:           log.New(os.Stderr, "[absnfs] ", log.LstdFlags),
 		structuredLogger: structuredLogger,
-		attrCache:        NewAttrCache(options.AttrCacheTimeout, options.AttrCacheSize),
+		attrCache:        NewAttrCache(tuning.AttrCacheTimeout, tuning.AttrCacheSize),
 	}
 
-	// Populate atomic option pointers from the fully-defaulted ExportOptions
-	server.initAtomicOptions(&options)
+	// Populate atomic option pointers from the fully-defaulted options
+	server.initAtomicOptions(tuning, &options)
 
 	// Initialize directory cache if enabled
-	if options.EnableDirCache {
-		server.dirCache = NewDirCache(options.DirCacheTimeout, options.DirCacheMaxEntries, options.DirCacheMaxDirSize)
+	if tuning.EnableDirCache {
+		server.dirCache = NewDirCache(tuning.DirCacheTimeout, tuning.DirCacheMaxEntries, tuning.DirCacheMaxDirSize)
 	}
 
 	// Configure negative caching
-	server.attrCache.ConfigureNegativeCaching(options.CacheNegativeLookups, options.NegativeCacheTimeout)
+	server.attrCache.ConfigureNegativeCaching(tuning.CacheNegativeLookups, tuning.NegativeCacheTimeout)
 
 	// Initialize and start worker pool
-	server.workerPool = NewWorkerPool(options.MaxWorkers, server)
+	server.workerPool = NewWorkerPool(tuning.MaxWorkers, server)
 	server.workerPool.Start()
 
 	// Initialize metrics collection
